@@ -39,6 +39,34 @@ func expTok(t time.Time) string {
 	return strconv.FormatInt(t.Unix(), 10)
 }
 
+// The solver loops forever when no counter passes the bit test (e.g. under a broken verifyBits). Every call that
+// searches runs under this guard; after the first timeout no further search is started.
+var solverHung bool
+var errHung = fmt.Errorf("solver did not return within 20s")
+
+func guard(f func() error) error {
+	if solverHung {
+		return errHung
+	}
+	done := make(chan error, 1)
+	go func() {
+		defer func() {
+			if x := recover(); x != nil {
+				done <- fmt.Errorf("panic")
+			}
+		}()
+		done <- f()
+	}()
+	select {
+	case err := <-done:
+		return err
+	case <-time.After(20 * time.Second):
+		solverHung = true
+		r.Raw("# solver hung: no further search is started")
+		return errHung
+	}
+}
+
 // ---------- vb ----------
 
 func doVB(hash []byte, bits, n int) {
@@ -290,7 +318,11 @@ func newKey() (ed25519.PublicKey, ed25519.PrivateKey) {
 // a proof built by the real GenerateSolution
 func generate(d int, expires time.Duration) (*proof, error) {
 	pub, priv := newKey()
-	p, err := pow.GenerateSolution(priv, pow.Parameters{Difficulty: d, Expires: expires, GetSubject: defaultSubject})
+	var p *protocol.ProofOfWork
+	err := guard(func() (e error) {
+		p, e = pow.GenerateSolution(priv, pow.Parameters{Difficulty: d, Expires: expires, GetSubject: defaultSubject})
+		return
+	})
 	if err != nil {
 		return nil, err
 	}
@@ -318,6 +350,9 @@ func genVS(n int, maxD int) {
 		p, err := generate(d, expires)
 		if err != nil {
 			r.Raw("# generate failed: " + err.Error())
+			if solverHung {
+				return
+			}
 			continue
 		}
 		subj := defaultSubject(p.pub)
@@ -400,7 +435,7 @@ func genVS(n int, maxD int) {
 			case 13: // stamp solved for a LOWER difficulty presented where d is required, claiming d
 				if d >= 2 {
 					hc := hashcash.New(hashcash.Hashcash{Subject: subj, Difficulty: d - 1 - rng.Intn(d-1), ExpiresAt: time.Now().Add(expires)})
-					if hc.Solve(26) == nil {
+					if guard(func() error { return hc.Solve(26) }) == nil {
 						s := setField(hc.String(), 1, strconv.Itoa(d))
 						doVS("underpowered", p.pub, p.resign(s), s, d, expires, subj, false)
 						doVS("lower-difficulty", p.pub, p.resign(hc.String()), hc.String(), d, expires, subj, false)
@@ -430,7 +465,10 @@ func genTime(n int) {
 		off := hlib.Pick(rng, offs)
 		exp := time.Unix(time.Now().Unix()+off, 0)
 		hc := hashcash.New(hashcash.Hashcash{Subject: subj, Difficulty: d, ExpiresAt: exp})
-		if err := hc.Solve(26); err != nil {
+		if err := guard(func() error { return hc.Solve(26) }); err != nil {
+			if solverHung {
+				return
+			}
 			continue
 		}
 		s := hc.String()
@@ -445,34 +483,22 @@ func doSolve(d int, exp time.Time, subj, nonce, alg string, maxD int) bool {
 	pre := hc.String()
 	lhs := []string{"solve", strconv.Itoa(hc.Difficulty), expTok(hc.ExpiresAt), hlib.HexS(hc.Subject), hlib.HexS(hc.Nonce), hlib.HexS(hc.Alg),
 		strconv.Itoa(maxD), hlib.HexS(pre)}
-	done := make(chan error, 1)
-	go func() {
-		defer func() {
-			if x := recover(); x != nil {
-				done <- fmt.Errorf("panic")
-			}
-		}()
-		done <- hc.Solve(maxD)
-	}()
 	var res string
 	solved, digest := "-", "-"
-	select {
-	case err := <-done:
-		switch err {
-		case nil:
-			s := hc.String()
-			dg := sha256.Sum256([]byte(s))
-			solved, digest = hlib.HexS(s), hlib.Hex(dg[:])
-			res = "ok," + hlib.HexS(hc.Solution)
-		case hashcash.ErrUnsupportedAlgorithm:
-			res = "err,alg"
-		case hashcash.ErrInvalidDifficulty:
-			res = "err,difficulty"
-		default:
-			res = "err,other"
-		}
-	case <-time.After(60 * time.Second):
+	switch err := guard(func() error { return hc.Solve(maxD) }); err {
+	case nil:
+		s := hc.String()
+		dg := sha256.Sum256([]byte(s))
+		solved, digest = hlib.HexS(s), hlib.Hex(dg[:])
+		res = "ok," + hlib.HexS(hc.Solution)
+	case hashcash.ErrUnsupportedAlgorithm:
+		res = "err,alg"
+	case hashcash.ErrInvalidDifficulty:
+		res = "err,difficulty"
+	case errHung:
 		res = "timeout"
+	default:
+		res = "err,other"
 	}
 	r.Emit(strings.Join(append(lhs, solved, digest), " "), res)
 	r.Case("solve" + pre + strconv.Itoa(maxD))
